@@ -50,7 +50,9 @@ type Caller struct {
 
 type invalidType struct{ got, want interface{} }
 
-func (e invalidType) Error() string { return fmt.Sprintf("invalid response: got %T want %T", e.got, e.want) }
+func (e invalidType) Error() string {
+	return fmt.Sprintf("invalid response: got %T want %T", e.got, e.want)
+}
 
 func mkRequest(want, marker int, big int) ua.Request {
 	nid := ua.NewNumericNodeID(0, uint32(marker))
